@@ -91,27 +91,60 @@ pub fn generate(rng: &mut Rng) -> GenGrammar {
     let mut out = String::new();
     for (ri, rule) in rules.iter().enumerate() {
         let n_alts = rng.range(1, 4);
-        let vec_pattern = ri > 0 && rng.chance(1, 6);
+        let vec_pattern = ri > 0 && rng.chance(1, 4);
         if vec_pattern {
-            // A: A B | B;  (optionally annotated)
+            // the vec family: A: A B | B;  optionally annotated, and with the
+            // variations a user writes: right recursion, a named single
+            // element, alternatives that do not fit the pattern (a lone
+            // keyword, three references, keyword + element), any order
             let elem = rng.pick(&content_syms).clone();
             if elem != *rule {
                 if rng.chance(1, 2) {
                     out.push_str("@vec\n");
                     tags.push("@vec");
                 }
-                let sep = if rng.chance(1, 3) {
+                let mut take_kw = |rng: &mut Rng, used_kws: &mut Vec<String>| -> String {
+                    let _ = rng;
                     let kw = kws[next_kw % kws.len()];
                     next_kw += 1;
                     if !used_kws.iter().any(|k| k == kw) {
                         used_kws.push(kw.to_string());
                     }
-                    format!(" '{kw}'")
-                } else {
-                    String::new()
+                    kw.to_string()
                 };
-                let empty = if rng.chance(1, 3) { " | EMPTY" } else { "" };
-                out.push_str(&format!("{rule}: {rule}{sep} {elem} | {elem}{empty};\n"));
+                let sep = if rng.chance(1, 3) { format!(" '{}'", take_kw(rng, &mut used_kws)) } else { String::new() };
+                let rec = if rng.chance(1, 6) {
+                    tags.push("vec-right-recursive");
+                    format!("{elem}{sep} {rule}")
+                } else if rng.chance(1, 8) {
+                    tags.push("vec-named");
+                    format!("rest={rule}{sep} last={elem}")
+                } else {
+                    format!("{rule}{sep} {elem}")
+                };
+                let single = if rng.chance(1, 4) {
+                    tags.push("vec-named");
+                    format!("first={elem}")
+                } else {
+                    elem.clone()
+                };
+                let mut alts: Vec<String> = vec![rec, single];
+                if rng.chance(1, 3) {
+                    alts.push("EMPTY".into());
+                }
+                if rng.chance(1, 3) {
+                    tags.push("near-vec");
+                    let extra = match rng.below(3) {
+                        0 => format!("'{}'", take_kw(rng, &mut used_kws)),
+                        1 => format!("{elem} {elem} {elem}"),
+                        _ => format!("'{}' {elem}", take_kw(rng, &mut used_kws)),
+                    };
+                    alts.push(extra);
+                }
+                if rng.chance(1, 2) {
+                    rng.shuffle(&mut alts);
+                }
+                out.push_str(&format!("{rule}: {};\n", alts.join(" | ")));
                 continue;
             }
         }
